@@ -547,7 +547,7 @@ CtxAfterReq(c, e) ==
                       THEN (Key(e) :> e.post) @@ @      \* the response of an accepted write is an observation too
                  ELSE @,
         !.lastParentGet = IF isParentGet /\ Accepted(e) THEN e.got ELSE IF isParentGet THEN AbsentObj ELSE @,
-        !.cur = IF parentPut /\ e.verb = "update" /\ Accepted(e) /\ c.nHooks = 0 /\ e.post.live THEN e.post ELSE @,
+        !.cur = IF parentPut /\ e.verb = "update" /\ Accepted(e) /\ c.nHooks = 0 /\ e.ret.live THEN e.ret ELSE @,
         !.adopted = IF Accepted(e) /\ IsOwnedKind(e) /\ IsAdoption(e, c) THEN @ \cup {Key(e)} ELSE @,
         !.released = IF Accepted(e) /\ IsOwnedKind(e) /\ IsRelease(e, c) THEN @ \cup {Key(e)} ELSE @,
         !.issued = IF childMut /\ c.nHooks > 0 THEN @ \cup {<<e.verb, Key(e)>>} ELSE @,
@@ -615,6 +615,7 @@ Next ==
                                 /\ ctx' = IF InSync(E) THEN [ctx EXCEPT ![E.a] = CtxAfterReq(@, E)] ELSE ctx
        [] E.ev = "Hook"      -> /\ UNCHANGED <<store, cfg, expect>>
                                 /\ ctx' = IF InSync(E) THEN [ctx EXCEPT ![E.a] = CtxAfterHook(@, E)] ELSE ctx
+       [] E.ev = "Reconfig"  -> cfg' = E.cfg /\ UNCHANGED <<store, expect, ctx>>
        [] E.ev = "SyncStart" -> UNCHANGED <<store, cfg, expect>> /\ ctx' = (E.a :> NewCtx(E)) @@ ctx
        [] E.ev = "SyncEnd"   -> /\ UNCHANGED <<store, cfg, expect>>
                                 /\ ctx' = IF E.a \in DOMAIN ctx THEN [ctx EXCEPT ![E.a].active = FALSE, ![E.a].result = E.result] ELSE ctx
